@@ -930,6 +930,10 @@ fn main() {
         i += 1;
     }
     util::install_crash_handler();
+    // the executions of this engine are tiny: a worker that announces nothing for 20 s is stuck
+    if std::env::var("VERIF_HANG_SECS").is_err() {
+        util::HANG_SECS.store(20, std::sync::atomic::Ordering::Relaxed);
+    }
     if std::env::var("FAULT_VERBOSE").is_err() {
         util::install_quiet_panic_hook();
     }
